@@ -115,9 +115,17 @@ def box_st(draw, d, wide=False):
 
 def steps_st(draw, T):
     t0 = draw(st.one_of(st.just(0), st.integers(0, 10 ** 9)))
+    # schedules a simulation can write: increasing (usual); the same step written again (run 0, minimisation,
+    # restart); a counter that goes back (reset_timestep).  Every frame is promised whatever its TIMESTEP says.
+    sched = draw(st.sampled_from(["increasing", "increasing", "increasing", "repeats", "any-order"])) if T > 1 else "single"
     steps = [t0]
     for _ in range(T - 1):
-        steps.append(steps[-1] + draw(st.integers(1, 10 ** 6)))
+        if sched == "increasing":
+            steps.append(steps[-1] + draw(st.integers(1, 10 ** 6)))
+        elif sched == "repeats":
+            steps.append(steps[-1] + draw(st.sampled_from([0, 0, 1, 500])))
+        else:
+            steps.append(draw(st.integers(0, 10 ** 6)))
     return steps
 
 
